@@ -70,6 +70,16 @@ def make_screen(kind, nx, ps, r0, L0, extra, gen=None):
         return ips.PhaseScreenKolmogorov(nx, ps, r0, L0, random_seed=gen, stencil_length_factor=extra)
 
 
+def factorisable(s):
+    """the stencil covariance the screen holds admits the Cholesky factorisation by which its A matrix is defined"""
+    import scipy.linalg
+    try:
+        scipy.linalg.cho_factor(numpy.asarray(s.cov_mat_zz))
+        return True
+    except Exception:
+        return False
+
+
 def gen_params(rng, small=True):
     kind = rng.choice(["vk", "fried"])
     if kind == "vk":
